@@ -298,7 +298,8 @@ def gen_world(rng, n_inputs=None, n_formulas=None, sheets=None, names=True,
         level[a] = 0
         deps[a] = []
 
-    name_pool = ['rate', 'total_x', 'nm_a', 'Input1', 'k_2', 'tax']
+    name_pool = ['rate', 'total_x', 'nm_a', 'Input1', 'k_2', 'tax', '_base',
+                 '_w']
     rng.shuffle(name_pool)
     wnames = {}
     if names and rng.random() < 0.6:
